@@ -161,16 +161,16 @@ func (b *backend) propFindFile(propfind *internal.PropFind, fi *FileInfo) (*inte
 		return internal.NewResourceType(types...), nil
 	}
 
+	if !fi.ModTime.IsZero() {
+		props[internal.GetLastModifiedName] = internal.PropFindValue(&internal.GetLastModified{
+			LastModified: internal.Time(fi.ModTime),
+		})
+	}
+
 	if !fi.IsDir {
 		props[internal.GetContentLengthName] = internal.PropFindValue(&internal.GetContentLength{
 			Length: fi.Size,
 		})
-
-		if !fi.ModTime.IsZero() {
-			props[internal.GetLastModifiedName] = internal.PropFindValue(&internal.GetLastModified{
-				LastModified: internal.Time(fi.ModTime),
-			})
-		}
 
 		if fi.MIMEType != "" {
 			props[internal.GetContentTypeName] = internal.PropFindValue(&internal.GetContentType{
